@@ -1,6 +1,7 @@
 package main
 
 import (
+	"fmt"
 	"bytes"
 	"encoding/json"
 	"crypto/sha256"
@@ -58,7 +59,16 @@ func draftOf(d string) mice.Encoding {
 
 func miEncEvent(id string, draft string, rs int, payload []byte) (stream []byte, digest string) {
 	var buf bytes.Buffer
-	dg, err := draftOf(draft).Encode(&buf, payload, rs)
+	var dg string
+	var err error
+	func() {
+		defer func() {
+			if rec := recover(); rec != nil { // a panic is reported as a failed call (the judge demands success)
+				err = fmt.Errorf("panic: %v", rec)
+			}
+		}()
+		dg, err = draftOf(draft).Encode(&buf, payload, rs)
+	}()
 	emit(map[string]interface{}{"case": id, "kind": "enc", "draft": draft, "rs": rs, "payload": ints(payload),
 		"err": err != nil, "stream": ints(buf.Bytes()), "digest": ints([]byte(dg))})
 	return buf.Bytes(), dg
